@@ -131,6 +131,21 @@ def NDArray.setWholeNaive (a : NDArray V) (shape : Idx) (vals : List V) (accepts
     | .error e => (b, .error e)
     | .ok c => (c, .ok ())
 
+/-- `DataArray::appendData(dtype, data, count, axis)` with the array afterwards as part of the result (after fix 80dff08: a refused
+    write takes the enlargement back).  `accepts`: HDF5 converts the element class of the buffer into that of the array. -/
+def NDArray.appendChecked (a : NDArray V) (cnt : Idx) (axis : Nat) (vals : List V) (accepts : Bool) : NDArray V × Except Err Unit :=
+  if axis ≥ a.shape.length then (a, .error .invalidRank) else
+  if a.shape.length != cnt.length then (a, .error .incompatibleDimensions) else
+  if (List.range cnt.length).any fun i => i != axis && a.shape[i]? != cnt[i]? then (a, .error .incompatibleDimensions) else
+  let delta := (List.range a.shape.length).map fun i => if i == axis then (cnt[i]?).getD 0 else 0
+  let off := (List.range a.shape.length).map fun i => if i == axis then (a.shape[i]?).getD 0 else 0
+  match a.setExtent (addIdx a.shape delta) with
+  | .error e => (a, .error e)
+  | .ok b =>
+    match (if accepts then b.write cnt off vals else .error .h5Error) with
+    | .ok c => (c, .ok ())
+    | .error e => (match b.setExtent a.shape with | .ok c => (c, .error e) | .error _ => (b, .error e))
+
 /-! ### DataView -/
 
 structure View where
